@@ -42,20 +42,39 @@ theorem objView_upd (u : LocalUpd p.a e' i o' em dq) (ho' : o'.fid = y) (k : Nat
   · subst hk; rw [if_pos rfl]; exact objView_self u.self ho'
   · rw [if_neg hk]; simp [objView, u.others k hk]
 
+/-- What an object-local update at `a` must satisfy with respect to the wire-level facts: what it
+    emits respects "no data after an end marker", a closed sender emits no data, an emitted end marker
+    closes the sender; the receiving side is ended only by consuming an end marker. -/
+structure WireUpd (o o' : Obj) (em hd : List Msg) : Prop where
+  shape : noPushAfterEnd (em.filterMap toItem) = true
+  closed : o.finishSent = true → Link.pushes (em.filterMap toItem) = []
+  ends : Link.hasEnd (em.filterMap toItem) = true → o'.finishSent = true
+  alive : o'.senderAlive = false → o.senderAlive = false ∨ Link.hasEnd (hd.filterMap toItem) = true
+
 theorem phase_upd (hp : Phase y p) (u : LocalUpd p.a e' i o' em dq)
     (ho : p.a.objs[i]? = some o) (hoy : o.fid = y) (ho' : o'.fid = y)
     (hem : ∀ m ∈ em, Msg.flow? m = some y ∧ m.isConnect = false)
     (hba1 : fl y (pathBA p) = hd ++ fbaT) (hba2 : fl y (ba' ++ p.b.outq) = fbaT)
-    (hS : ∀ oR fwd bwd r eof l, DirRel o oR fwd (hd ++ bwd) (p.ga.wlog i) r eof l →
+    (hS : lookup p.a.flows y ≠ none → ∀ oR fwd bwd r eof l, DirRel o oR fwd (hd ++ bwd) (p.ga.wlog i) r eof l →
             ∃ l', DirRel o' oR (fwd ++ em) bwd (g'.wlog i) r eof l')
-    (hR : ¬ y ∈ dq → ∀ oS fwd bwd w l, DirRel oS o (hd ++ fwd) bwd w (p.ga.rlog i) (p.ga.eof i) l →
+    (hR : ReaderOk o' (g'.eof i) → ∀ oS fwd bwd w l, DirRel oS o (hd ++ fwd) bwd w (p.ga.rlog i) (p.ga.eof i) l →
             ∃ l', DirRel oS o' fwd (bwd ++ em) w (g'.rlog i) (g'.eof i) l')
+    (hRA : ReaderOk o' (g'.eof i) → ∀ fwd w l, DirRelA o (hd ++ fwd) w (p.ga.rlog i) (p.ga.eof i) l →
+            ∃ l', DirRelA o' fwd w (g'.rlog i) (g'.eof i) l')
+    (hok : ReaderOk o' (g'.eof i) → ReaderOk o (p.ga.eof i))
+    (hclosed : (o.finishSent = true → o'.finishSent = true ∧ g'.wlog i = p.ga.wlog i) ∧
+               (o.senderAlive = false → o'.senderAlive = false))
+    (hnr : lookup p.a.flows y ≠ none → noReset em) (hhd : lookup p.a.flows y ≠ none → noReset hd)
+    (hw : WireUpd o o' em hd)
+    (hrxd : (o.rxOpen = false → o'.rxOpen = false) ∧ (y ∈ dq → o'.rxOpen = false))
     (hHalf : hd = [] → o.rxq = [] → o.buf = [] → o.recvdSince = 0 → o.senderAlive = true →
             o'.rxq = [] ∧ o'.buf = [] ∧ o'.recvdSince = 0 ∧ o'.senderAlive = true ∧ (∀ m ∈ em, ackOf m = none) ∧
             g'.rlog i = p.ga.rlog i ∧ g'.eof i = p.ga.eof i ∧ (¬ y ∈ dq → o.rxOpen = true → o'.rxOpen = true))
     (hcap : o'.cap = o.cap ∧ o'.threshold = o.threshold)
-    (hdq : ∀ x ∈ dq, x = y) :
-    Phase y { p with a := e', ga := g', ba := ba' } := by
+    (hdq : ∀ x ∈ dq, x = y) {lk' : List Nat} :
+    Phase y { p with a := e', ga := g', ba := ba', linked := lk' } ∧
+    (Linked y (ev y p.a p.ga) (ev y p.b p.gb) (fl y (pathAB p)) (fl y (pathBA p)) →
+      Linked y (ev y e' g') (ev y p.b p.gb) (fl y (p.ab ++ e'.outq)) (fl y (ba' ++ p.b.outq))) := by
   have hov := objView_self ho hoy
   have hfl : fl y (p.ab ++ e'.outq) = fl y (pathAB p) ++ em := by
     rw [u.outq, ← List.append_assoc, fl_append, fl_self y em (fun m hm => (hem m hm).1)]; rfl
@@ -66,11 +85,6 @@ theorem phase_upd (hp : Phase y p) (u : LocalUpd p.a e' i o' em dq)
     · exact (hem m h).2
   have hslot : lookup e'.flows y = lookup p.a.flows y := by rw [u.flows]
   have hrng : (y ∈ e'.rng) = (y ∈ p.a.rng) := by rw [u.rng]
-  have hdq' : y ∈ e'.droppedq → ¬ y ∈ p.a.droppedq → y ∈ dq := by
-    intro h1 h2; rw [u.dq] at h1
-    rcases List.mem_append.mp h1 with h | h
-    · exact absurd h h2
-    · exact h
   have hdq2 : ¬ y ∈ e'.droppedq → ¬ y ∈ p.a.droppedq := by
     intro h1 h2; apply h1; rw [u.dq]; exact List.mem_append_left _ h2
   have hov' : objView y e' i = some o' := objView_self u.self ho'
@@ -93,74 +107,183 @@ theorem phase_upd (hp : Phase y p) (u : LocalUpd p.a e' i o' em dq)
   have hwl0 : (ev y p.a p.ga).wlog i = p.ga.wlog i := by simp [ev, hov]
   have hrl0 : (ev y p.a p.ga).rlog i = p.ga.rlog i := by simp [ev, hov]
   have hel0 : (ev y p.a p.ga).eof i = p.ga.eof i := by simp [ev, hov]
-  show PhV y (ev y e' g') (ev y p.b p.gb) (fl y (p.ab ++ e'.outq)) (fl y (ba' ++ p.b.outq))
-  rw [hfl, hba2]
-  unfold Phase at hp
-  rw [hba1] at hp
   have hnc2 : noConnect (hd ++ fbaT) → noConnect fbaT := fun hh m hm => hh m (List.mem_append_right _ hm)
-  rcases hp with f | r | r | r | r | r | r
-  · exact absurd f.oa hnoobj
-  · exact absurd r.oa hnoobj
-  · exact absurd r.ob hnoobj
-  · exact absurd r.oa hnoobj
-  · -- half-open, `a` is the accepting side
-    obtain ⟨j, oP, rest, l, h1, h2, h3, h4, h5, h6, h7, h8, h9, h10, h11, h12, h13, h14, h15⟩ := r.body
-    obtain ⟨hji, honly'⟩ := honly j h3
-    subst hji
-    have hoP : oP = o := by
-      rw [show (ev y p.a p.ga).objs j = objView y p.a j from rfl, hov] at h2; cases h2; rfl
-    subst hoP
-    have hnil := r.fab
-    have hd0 : hd = [] := (List.append_eq_nil_iff.mp hnil).1
-    have hT0 : fbaT = [] := (List.append_eq_nil_iff.mp hnil).2
-    obtain ⟨k1, k2, k3, k4, k5, k6, k7, k8⟩ := hHalf hd0 h8 h9 h10 h11
-    subst hd0
-    rw [hwl0] at h12
-    obtain ⟨l', hl'⟩ := hS _ _ _ _ _ _ h12
-    refine Or.inr (Or.inr (Or.inr (Or.inr (Or.inl ⟨r.ra, by show ¬ y ∈ e'.rng; rw [hrng]; exact r.rb, r.sa, r.oa, r.da, hT0,
-      ⟨j, o', rest ++ em, l', ?_, hov', honly', ?_, ?_, ?_, ?_, k1, k2, k3, k4, ?_⟩⟩))))
-    · show lookup e'.flows y = _; rw [hslot]; exact h1
-    · rw [h4]; show _ = Msg.frame (Frame.acknowledge y e'.opts.rwnd) :: (rest ++ em); rw [u.opts]; rfl
-    · intro m hm
-      rcases List.mem_append.mp hm with hh | hh
-      · exact h5 m hh
-      · exact ⟨(hem m hh).2, k5 m hh⟩
-    · show o'.cap = e'.opts.rwnd; rw [hcap.1, u.opts]; exact h6
-    · show o'.threshold = thresholdFor e'.opts _; rw [hcap.2, u.opts]; exact h7
-    · rw [hwl]
-      have : (ev y e' g').opts = (ev y p.a p.ga).opts := by show e'.opts = p.a.opts; exact u.opts
-      rw [this]
-      rw [hrl0] at h13
-      rw [hel0] at h14
-      refine ⟨hl', by rw [hrl, k6]; exact h13, by rw [hel, k7]; exact h14, ?_⟩
-      intro hnd
-      have hnd0 : ¬ y ∈ p.a.droppedq := hdq2 hnd
-      have hndq : ¬ y ∈ dq := fun hh => hnd (by show y ∈ e'.droppedq; rw [u.dq]; exact List.mem_append_right _ hh)
-      exact k8 hndq (h15 hnd0)
-  · -- linked
-    obtain ⟨i0, j, oA, oB, h1, h2, h3, h4, h5, h6, c1, c2, h7⟩ := r.body
+  have hnrapp : lookup p.a.flows y ≠ none → ∀ l, noReset l → noReset (l ++ em) := by
+    intro hne l hl m hm
+    rcases List.mem_append.mp hm with hh | hh
+    · exact hl m hh
+    · exact hnr hne m hh
+  -- the live case, used twice
+  have live : Linked y (ev y p.a p.ga) (ev y p.b p.gb) (fl y (pathAB p)) (hd ++ fbaT) →
+      Linked y (ev y e' g') (ev y p.b p.gb) (fl y (pathAB p) ++ em) fbaT := by
+    intro r
+    obtain ⟨i0, j, oA, oB, h3, h4, h5, h6, c1, c2, s1, s2, n1, n2, w1, w2, q1, q2, k1, k2⟩ := r.body
     obtain ⟨hji, honly'⟩ := honly i0 h5
     subst hji
     have hoA : oA = o := by
       rw [show (ev y p.a p.ga).objs i0 = objView y p.a i0 from rfl, hov] at h3; cases h3; rfl
     subst hoA
-    refine Or.inr (Or.inr (Or.inr (Or.inr (Or.inr (Or.inl ⟨by show ¬ y ∈ e'.rng; rw [hrng]; exact r.ra, r.rb, hnc _ r.nab, hnc2 r.nba,
-      ⟨i0, j, o', oB, by show lookup e'.flows y = _; rw [hslot]; exact h1, h2, hov', h4, honly', h6,
-        by show o'.cap = e'.opts.rwnd; rw [hcap.1, u.opts]; exact c1, c2, ?_⟩⟩)))))
-    intro hda hdb
-    obtain ⟨⟨l1, d1⟩, ⟨l2, d2⟩⟩ := h7 (hdq2 hda) hdb
-    rw [hwl0] at d1
-    rw [hrl0, hel0] at d2
-    obtain ⟨l1', d1'⟩ := hS _ _ _ _ _ _ d1
-    have hnd : ¬ y ∈ dq := fun hh => hda (by show y ∈ e'.droppedq; rw [u.dq]; exact List.mem_append_right _ hh)
-    obtain ⟨l2', d2'⟩ := hR hnd _ _ _ _ _ d2
-    rw [hwl, hrl, hel]
-    exact ⟨⟨l1', d1'⟩, ⟨l2', d2'⟩⟩
-  · -- dead
-    exact Or.inr (Or.inr (Or.inr (Or.inr (Or.inr (Or.inr ⟨by show ¬ y ∈ e'.rng; rw [hrng]; exact r.ra, r.rb, hnc _ r.nab, hnc2 r.nba,
-      by rcases r.gone with g | g
-         · left; show lookup e'.flows y = none; rw [hslot]; exact g
-         · right; exact g⟩)))))
+    have hsl : (ev y e' g').slot = (ev y p.a p.ga).slot := hslot
+    have hnrT : noReset (hd ++ fbaT) → noReset fbaT := fun hh m hm => hh m (List.mem_append_right _ hm)
+    refine ⟨by show ¬ y ∈ e'.rng; rw [hrng]; exact r.ra, r.rb, hnc _ r.nab, hnc2 r.nba,
+      ⟨i0, j, o', oB, hov', h4, honly', h6, by show o'.cap = e'.opts.rwnd; rw [hcap.1, u.opts]; exact c1, c2, ?_, s2, ?_, ?_, ?_, ?_,
+        ?_, q2, ?_, ?_⟩⟩
+    · rw [hsl]
+      rcases s1 with s1 | ⟨s1, f1, f2⟩
+      · exact Or.inl s1
+      · exact Or.inr ⟨s1, (hclosed.1 f1).1, hclosed.2 f2⟩
+    · rw [hsl]; intro hne; exact hnrapp hne _ (n1 hne)
+    · intro hne; exact hnrT (n2 hne)
+    · -- wire a → b
+      have hfin : oA.finishSent = true → o'.finishSent = true := fun hh => (hclosed.1 hh).1
+      refine ⟨?_, ?_, ?_⟩
+      · rw [List.filterMap_append]
+        exact npae_append _ _ w1.shape hw.shape (fun he => hw.closed (w1.ended he))
+      · rw [List.filterMap_append, Link.hasEnd_append]
+        intro he
+        rcases Bool.or_eq_true_iff.mp he with h1 | h1
+        · exact hfin (w1.ended h1)
+        · exact hw.ends h1
+      · intro hne hal
+        obtain ⟨z1, z2⟩ := w1.quiet hne hal
+        rw [List.filterMap_append, Link.pushes_append, z1, hw.closed z2]
+        exact ⟨rfl, hfin z2⟩
+    · -- wire b → a
+      have hsplit : (hd ++ fbaT).filterMap toItem = hd.filterMap toItem ++ fbaT.filterMap toItem := List.filterMap_append
+      refine ⟨?_, ?_, ?_⟩
+      · have := w2.shape; rw [hsplit] at this; exact npae_suffix _ _ this
+      · intro he; apply w2.ended; rw [hsplit, Link.hasEnd_append, he]; simp
+      · rw [hsl]
+        intro hne hal
+        rcases hw.alive hal with h1 | h1
+        · obtain ⟨z1, z2⟩ := w2.quiet hne h1
+          rw [hsplit, Link.pushes_append] at z1
+          exact ⟨(List.append_eq_nil_iff.mp z1).2, z2⟩
+        · have hsh := w2.shape; rw [hsplit] at hsh
+          refine ⟨npae_end_prefix _ _ hsh h1, w2.ended ?_⟩
+          rw [hsplit, Link.hasEnd_append, h1]; rfl
+    · -- a queued notification means the receiving half is closed
+      intro hdq
+      have hdq' : y ∈ e'.droppedq := hdq
+      rw [u.dq] at hdq'
+      rcases List.mem_append.mp hdq' with hh | hh
+      · exact hrxd.1 (q1 hh)
+      · exact hrxd.2 hh
+    · -- direction a → b: `a` in the sending role
+      intro hrok
+      obtain ⟨ka, kb⟩ := k1 hrok
+      rw [hsl, hwl]
+      constructor
+      · intro hne
+        obtain ⟨l1, d1⟩ := ka hne
+        rw [hwl0] at d1
+        exact hS hne _ _ _ _ _ _ d1
+      · intro hnone
+        obtain ⟨l1, d1⟩ := kb hnone
+        rw [hwl0] at d1
+        have hfin : oA.finishSent = true := by
+          rcases s1 with s1 | ⟨_, f1, _⟩
+          · rw [hnone] at s1; cases s1
+          · exact f1
+        rw [(hclosed.1 hfin).2]
+        exact ⟨l1, d1.noise⟩
+    · -- direction b → a: `a` in the receiving role
+      intro hrok
+      rw [hel] at hrok
+      rw [hrl, hel]
+      have hrok0 := hok hrok
+      rw [← hel0] at hrok0
+      obtain ⟨ka, kb⟩ := k2 hrok0
+      constructor
+      · intro hne
+        obtain ⟨l2, d2⟩ := ka hne
+        rw [hrl0, hel0] at d2
+        exact hR hrok _ _ _ _ _ d2
+      · intro hnone
+        obtain ⟨l2, d2⟩ := kb hnone
+        rw [hrl0, hel0] at d2
+        exact hRA hrok _ _ _ d2
+  constructor
+  · show PhV y (ev y e' g') (ev y p.b p.gb) (fl y (p.ab ++ e'.outq)) (fl y (ba' ++ p.b.outq))
+    rw [hfl, hba2]
+    unfold Phase at hp
+    rw [hba1] at hp
+    rcases hp with f | r | r | r | r | r | r
+    · exact absurd f.oa hnoobj
+    · exact absurd r.oa hnoobj
+    · exact absurd r.ob hnoobj
+    · exact absurd r.oa hnoobj
+    · -- half-open, `a` is the accepting side
+      obtain ⟨j, oP, rest, l, h1, h2, h3, h4, h5, h6, h7, h8, h9, h10, h11, h12, h13, h14, h15, h16, h17, h18, h19⟩ := r.body
+      obtain ⟨hji, honly'⟩ := honly j h3
+      subst hji
+      have hoP : oP = o := by
+        rw [show (ev y p.a p.ga).objs j = objView y p.a j from rfl, hov] at h2; cases h2; rfl
+      subst hoP
+      have hnil := r.fab
+      have hd0 : hd = [] := (List.append_eq_nil_iff.mp hnil).1
+      have hT0 : fbaT = [] := (List.append_eq_nil_iff.mp hnil).2
+      obtain ⟨k1, k2, k3, k4, k5, k6, k7, k8⟩ := hHalf hd0 h8 h9 h10 h11
+      subst hd0
+      have hest : lookup p.a.flows y ≠ none := by
+        have : lookup p.a.flows y = some (.established j) := h1
+        rw [this]; intro hh; cases hh
+      rw [hwl0] at h12
+      obtain ⟨l', hl'⟩ := hS hest _ _ _ _ _ _ h12
+      refine Or.inr (Or.inr (Or.inr (Or.inr (Or.inl ⟨r.ra, by show ¬ y ∈ e'.rng; rw [hrng]; exact r.rb, r.sa, r.oa, r.da, hT0,
+        ⟨j, o', rest ++ em, l', ?_, hov', honly', ?_, ?_, ?_, ?_, k1, k2, k3, k4, ?_⟩⟩))))
+      · show lookup e'.flows y = _; rw [hslot]; exact h1
+      · rw [h4]; show _ = Msg.frame (Frame.acknowledge y e'.opts.rwnd) :: (rest ++ em); rw [u.opts]; rfl
+      · intro m hm
+        rcases List.mem_append.mp hm with hh | hh
+        · exact h5 m hh
+        · exact ⟨(hem m hh).2, k5 m hh⟩
+      · show o'.cap = e'.opts.rwnd; rw [hcap.1, u.opts]; exact h6
+      · show o'.threshold = thresholdFor e'.opts _; rw [hcap.2, u.opts]; exact h7
+      · rw [hwl]
+        have : (ev y e' g').opts = (ev y p.a p.ga).opts := by show e'.opts = p.a.opts; exact u.opts
+        rw [this]
+        rw [hrl0] at h13
+        rw [hel0] at h14
+        refine ⟨hl', by rw [hrl, k6]; exact h13, by rw [hel, k7]; exact h14, ?_, hnrapp hest _ h16, ?_, ?_, ?_⟩
+        · intro hnd
+          have hnd0 : ¬ y ∈ p.a.droppedq := hdq2 hnd
+          have hndq : ¬ y ∈ dq := fun hh => hnd (by show y ∈ e'.droppedq; rw [u.dq]; exact List.mem_append_right _ hh)
+          exact k8 hndq (h15 hnd0)
+        · rw [List.filterMap_append]
+          exact npae_append _ _ h17 hw.shape (fun he => hw.closed (h18 he))
+        · rw [List.filterMap_append, Link.hasEnd_append]
+          intro he
+          rcases Bool.or_eq_true_iff.mp he with hh | hh
+          · exact (hclosed.1 (h18 hh)).1
+          · exact hw.ends hh
+        · intro hdq
+          have hdq' : y ∈ e'.droppedq := hdq
+          rw [u.dq] at hdq'
+          rcases List.mem_append.mp hdq' with hh | hh
+          · exact hrxd.1 (h19 hh)
+          · exact hrxd.2 hh
+    · exact Or.inr (Or.inr (Or.inr (Or.inr (Or.inr (Or.inl (live r))))))
+    · -- dead
+      refine Or.inr (Or.inr (Or.inr (Or.inr (Or.inr (Or.inr ⟨by show ¬ y ∈ e'.rng; rw [hrng]; exact r.ra, r.rb, hnc _ r.nab, hnc2 r.nba, ?_⟩)))))
+      rcases r.gone with g | g | g | g
+      · left; show lookup e'.flows y = none; rw [hslot]; exact g
+      · right; left; exact g
+      · right; right; left
+        intro hh; apply g
+        intro m hm; exact hh m (List.mem_append_left _ hm)
+      · by_cases hs : lookup p.a.flows y = none
+        · left; show lookup e'.flows y = none; rw [hslot]; exact hs
+        · right; right; right
+          intro hh; apply g
+          intro m hm
+          rcases List.mem_append.mp hm with h1 | h1
+          · exact hhd hs m h1
+          · exact hh m h1
+  · intro r
+    rw [hfl, hba2]
+    rw [hba1] at r
+    exact live r
 
 end Upd
 
